@@ -208,6 +208,9 @@ func propC11(c *Ctx) {
 		}
 	}
 
+	ros := c.Rule("own-storage", "the instruction stream stored into a converted function is storage built by that conversion, never a buffer shared between conversions", 1)
+	ruleOwnStorage(c, ros, convSSA)
+
 	// ---- all-funcs ----------------------------------------------------------------------------------
 	ra := c.Rule("all-funcs", "conversion is applied to Main and, in a loop over all constants, to every *CompiledFunction constant", 1)
 	{
